@@ -27,3 +27,8 @@ CLAIMS["C04"] = {
     "note": "x86 atomics are stronger than the orderings written in the source; weaker orderings are only exercised by the Miri leg. Gauge sums are judged on exactly representable operands only.",
     "technique": "runtime monitoring: conservation/monotonicity oracles over stress runs + Wing-Gong linearizability check of recorded gauge histories; logging HistogramFn doubles",
 }
+CLAIMS["C02"] = {
+    "text": "Exploration with forced windows: every atomic step of set() (after the CAS, after the pointer write) and of try_load() (after the state check) is held open by gates while the other installers and loaders run to completion; thousands of additional randomly-held trials and real-global-cell processes; the stamped history of each trial is checked against a write-once register (at most one Ok, value never changes or disappears, visible after the successful set returned), a payload canary (seen whole) and drop counters (rejected recorder handed back intact, neither dropped nor leaked). Miri runs the same race with its weak-memory scheduler and reports publication without happens-before as a data race.",
+    "note": "One global cell per process, so the real-global leg has one trial per process; the cell legs use the cfg-exported RecorderOnceCell type, which is the type of the global.",
+    "technique": "runtime monitoring: gated/random hook schedules on fresh once-cells, write-once-register history oracle, canary + drop accounting; Miri data-race detection",
+}
